@@ -12,8 +12,11 @@ def _digits(s):
 
 
 def _parse_sync(lines, res=192):
-    """Parse a chart whose sync section is `lines` (a 4/4 + tempo at tick 0 is prepended)."""
-    return outcome(chart_text(res=res, sync=lines))
+    """Parse a chart whose sync section is `lines` (a 4/4 + tempo at tick 0 is prepended).  A few of the same
+    lines are also placed in an instrument and the events section, where they are foreign (unparsable): what a
+    line means in the sync section must not depend on where else, or when, the same text was seen."""
+    foreign = lines[2:][:: max(1, len(lines) // 5)][:6]
+    return outcome(chart_text(res=res, sync=lines, events=foreign[:3], tracks={"HardDrums": foreign}))
 
 
 def _observe_batch(items, recs, ctx, top=True):
